@@ -134,6 +134,7 @@ type Netceptor struct {
 	reservedServices         map[string]func(*MessageData) error
 	serviceAdsLock           *sync.RWMutex
 	serviceAdsReceived       map[string]map[string]*ServiceAdvertisement
+	serviceAdsWithdrawn      map[string]map[string]time.Time
 	sendServiceAdsChan       chan time.Duration
 	backendWaitGroup         sync.WaitGroup
 	backendCount             int
@@ -1739,6 +1740,12 @@ func (s *Netceptor) handleServiceAdvertisement(data []byte, receivedFrom string)
 	s.Logger.SanitizedDebug("Received service advertisement from %s\n", si.NodeID)
 	s.serviceAdsLock.Lock()
 	defer s.serviceAdsLock.Unlock()
+	// A withdrawal leaves a tombstone behind, so that an older advertisement of the same service
+	// that is still in flight (floods are written by independent goroutines and may be reordered)
+	// does not bring the service back.
+	if withdrawnAt, withdrawn := s.serviceAdsWithdrawn[si.NodeID][si.Service]; withdrawn && !si.Time.After(withdrawnAt) {
+		return nil
+	}
 	n, ok := s.serviceAdsReceived[si.NodeID]
 	if !ok {
 		n = make(map[string]*ServiceAdvertisement)
@@ -1754,11 +1761,19 @@ func (s *Netceptor) handleServiceAdvertisement(data []byte, receivedFrom string)
 		return nil
 	}
 	if si.Cancel {
+		if s.serviceAdsWithdrawn == nil {
+			s.serviceAdsWithdrawn = make(map[string]map[string]time.Time)
+		}
+		if s.serviceAdsWithdrawn[si.NodeID] == nil {
+			s.serviceAdsWithdrawn[si.NodeID] = make(map[string]time.Time)
+		}
+		s.serviceAdsWithdrawn[si.NodeID][si.Service] = si.Time
 		delete(s.serviceAdsReceived[si.NodeID], si.Service)
 		if len(s.serviceAdsReceived[si.NodeID]) == 0 {
 			delete(s.serviceAdsReceived, si.NodeID)
 		}
 	} else {
+		delete(s.serviceAdsWithdrawn[si.NodeID], si.Service)
 		s.serviceAdsReceived[si.NodeID][si.Service] = si.ServiceAdvertisement
 	}
 	s.flood(data, receivedFrom)
